@@ -153,6 +153,7 @@ Lemma p_primary_S f ts : p_primary tbl (S f) ts =
               if starts_lp r2 then Err else Ok (Call x args, r2))
         | Some r0 => Ok (Var x, r0)
         end
+  | TLB :: r => bind (p_elems tbl f r) (fun lr => let (l, r') := lr in Ok (ArrLit l, r'))
   | TLP :: r =>
       match cast_type r with
       | Some (ty, r') => bind (p_unary tbl f r') (fun ar => let (a, r2) := ar in Ok (Cast ty a, r2))
@@ -184,6 +185,19 @@ Lemma p_args_S f trail ts : p_args tbl (S f) trail ts =
   end.
 Proof. reflexivity. Qed.
 
+Lemma p_elems_S f ts : p_elems tbl (S f) ts =
+  match ts with
+  | TRB :: r => Ok ([], r)
+  | _ =>
+      bind (p_assign tbl f ts) (fun ar =>
+        match ar with
+        | (a, TComma :: r) => bind (p_elems tbl f r) (fun lr => let (l, r') := lr in Ok (a :: l, r'))
+        | (a, TRB :: r) => Ok ([a], r)
+        | _ => Err
+        end)
+  end.
+Proof. reflexivity. Qed.
+
 End Unfold.
 
 Section Mono.
@@ -197,10 +211,11 @@ Lemma mono : forall f,
   (forall ts f', f <= f' -> rle (p_unary tbl f ts) (p_unary tbl f' ts)) /\
   (forall e ts f', f <= f' -> rle (post_loop tbl f e ts) (post_loop tbl f' e ts)) /\
   (forall ts f', f <= f' -> rle (p_primary tbl f ts) (p_primary tbl f' ts)) /\
-  (forall trail ts f', f <= f' -> rle (p_args tbl f trail ts) (p_args tbl f' trail ts)).
+  (forall trail ts f', f <= f' -> rle (p_args tbl f trail ts) (p_args tbl f' trail ts)) /\
+  (forall ts f', f <= f' -> rle (p_elems tbl f ts) (p_elems tbl f' ts)).
 Proof.
   induction f as [|f IH]; [repeat split; intros; left; reflexivity|].
-  destruct IH as (IHa & IHt & IHb & IHl & IHu & IHp & IHpr & IHar).
+  destruct IH as (IHa & IHt & IHb & IHl & IHu & IHp & IHpr & IHar & IHel).
   assert (Hpost : forall ts f', f <= f' -> rle (p_postfix tbl f ts) (p_postfix tbl f' ts)).
   { intros. unfold p_postfix. apply rle_bind; [apply IHpr; lia|]. intros [e r1]. apply IHp; lia. }
   repeat split; intros; (destruct f' as [|f']; [lia|]); assert (Hle : f <= f') by lia.
@@ -267,6 +282,8 @@ Proof.
       destruct (cast_type r) as [[ty r']|].
       * apply rle_bind; [apply IHu; exact Hle|]. intros [a r2]. apply rle_refl.
       * apply rle_bind; [apply IHa; exact Hle|]. intros [e r']. apply rle_refl.
+    + (* TLB *)
+      apply rle_bind; [apply IHel; exact Hle|]. intros [l r']. apply rle_refl.
   - (* p_args *)
     rewrite !p_args_S. destruct ts as [|t r].
     + apply rle_bind; [apply IHa; exact Hle|]. intros [a r].
@@ -278,6 +295,23 @@ Proof.
          destruct r0 as [|t0 r0]; [apply rle_refl|]; destruct t0; try apply rle_refl;
          destruct r0 as [|t1 r0]; [apply rle_bind; [apply IHar; exact Hle|intros [l r']; apply rle_refl]|];
          destruct t1; try apply rle_refl; (apply rle_bind; [apply IHar; exact Hle|intros [l r']; apply rle_refl])).
+  - (* p_elems *)
+    rewrite !p_elems_S.
+    assert (Hk : rle (bind (p_assign tbl f ts) (fun ar =>
+        match ar with
+        | (a, TComma :: r) => bind (p_elems tbl f r) (fun lr => let (l, r') := lr in Ok (a :: l, r'))
+        | (a, TRB :: r) => Ok ([a], r)
+        | _ => Err
+        end)) (bind (p_assign tbl f' ts) (fun ar =>
+        match ar with
+        | (a, TComma :: r) => bind (p_elems tbl f' r) (fun lr => let (l, r') := lr in Ok (a :: l, r'))
+        | (a, TRB :: r) => Ok ([a], r)
+        | _ => Err
+        end))).
+    { apply rle_bind; [apply IHa; exact Hle|]. intros [a r].
+      destruct r as [|t r]; [apply rle_refl|]. destruct t; try apply rle_refl.
+      apply rle_bind; [apply IHel; exact Hle|]. intros [l r']. apply rle_refl. }
+    destruct ts as [|t r]; [exact Hk|]. destruct t; try exact Hk. apply rle_refl.
 Qed.
 
 End Mono.
